@@ -100,6 +100,21 @@ class Ctx(object):
     def event(self, name, n=1):
         self.events[name] = self.events.get(name, 0) + n
 
+    def raised(self, exc, key, what, witness=None):
+        """report an exception caught around a call into the code under test: a violation, unless the innermost frame of its
+        traceback is harness code (a generator, a shim, a reference model): then the harness failed, which is INCONCLUSIVE"""
+        tb = getattr(exc, '__traceback__', None)
+        last = None
+        while tb is not None:
+            last = tb.tb_frame.f_code.co_filename
+            tb = tb.tb_next
+        here = os.path.dirname(os.path.abspath(__file__))
+        if last is not None and os.path.abspath(last).startswith(here):
+            self.inconclusive('harness error while driving the code under test (%s): %r' % (os.path.basename(last), exc))
+            return False
+        self.violation(key, what, witness)
+        return True
+
     def violation(self, key, what, witness=None):
         if len(self.violations) < self.max_violations:
             self.violations.append({'key': key, 'what': str(what)[:2000],
@@ -158,7 +173,13 @@ def main(argv=None):
     sys.path.insert(0, repo)                       # the working tree wins over /venv's editable finder
     sys.path.append(os.path.join(HERE, '.deps'))   # contracts libs: appended, can never shadow /venv
 
-    scratch = tempfile.mkdtemp(prefix='verif-%s-' % a.pid)
+    # the launcher hands over a directory inside its own output directory, which it removes in a finally clause: nothing is left
+    # behind even when this shard is killed by the watchdog (atexit does not run then)
+    scratch = os.environ.get('VERIF_SCRATCH')
+    if scratch:
+        os.makedirs(scratch, exist_ok=True)
+    else:
+        scratch = tempfile.mkdtemp(prefix='verif-%s-' % a.pid)
     atexit.register(shutil.rmtree, scratch, True)
     os.environ['TMPDIR'] = scratch                 # the code under test leaks mkdtemp() memmaps
     tempfile.tempdir = scratch
